@@ -240,3 +240,16 @@ Theorem time_year_alias :
 Proof.
   split; eexists; (split; [reflexivity|]); eexists; (split; [reflexivity|]); vm_compute; reflexivity.
 Qed.
+
+(* the decode-encode sweep is separable: the date half of the result depends on the date
+   field only, the time half on the time field only (used by the model-side driver to
+   cover all 2^32 pairs from two tables of 2^16 model evaluations each) *)
+Theorem time_sweep_separable date time :
+  from_fat date time =
+    mkTs (year_since_1970 (from_fat date 0)) (zero_indexed_month (from_fat date 0))
+         (zero_indexed_day (from_fat date 0))
+         (hours (from_fat 0 time)) (minutes (from_fat 0 time)) (seconds (from_fat 0 time)) /\
+  serialize_to_fat (from_fat date time) =
+    bind (fat_date_of (from_fat date 0))
+         (fun dt => Val (le16 (fat_time_of (from_fat 0 time)) ++ le16 dt)).
+Proof. split; reflexivity. Qed.
